@@ -1,7 +1,9 @@
 #!/bin/sh
 # usage: mutrun.sh <patch> <check args...>   -- run ./check against a scratch copy with the patch
+# VERIF_KEEP=<dir>: copy the replay files of that run there before the scratch copy is removed
 P=$1; shift
 T=$(mktemp -d /tmp/verif-mut-XXXX); mkdir -p $T/repo; cp -r /repo/paramiko $T/repo/; rm -rf $T/repo/paramiko/__pycache__
 patch -p1 -s -d $T/repo -i $(realpath $P) || { echo PATCH FAILED; rm -rf $T; exit 9; }
 VERIF_REPO=$T/repo VERIF_OUT=$T/out /verif/check "$@"; rc=$?
+if [ -n "$VERIF_KEEP" ]; then mkdir -p "$VERIF_KEEP"; cp $T/out/replays/*.json "$VERIF_KEEP"/ 2>/dev/null; fi
 rm -rf $T; exit $rc
